@@ -183,8 +183,15 @@ def search(seed, tier):
         xs = X[:n]
         terms = []
         for _ in range(rng.randint(1, 3)):
-            kind = rng.choice(['poly', 'sin', 'exp', 'mix'])
+            kind = rng.choice(['poly', 'sin', 'exp', 'mix', 'sum', 'affine'])
             lin = sum(rng.randint(-2, 2) * v for v in xs) + rng.randint(-1, 1)
+            if kind == 'sum':      # dependence through the plain sum of some coordinates (autograd shares gradient buffers)
+                sub = [v for v in xs if rng.random() < 0.7] or list(xs)
+                terms.append(rng.choice([sp.sin, sp.exp, lambda q: q ** 2])(sum(sub)) * rng.randint(1, 3))
+                continue
+            if kind == 'affine':   # planar / affine components: constant or vanishing partials
+                terms.append(sum(rng.randint(-2, 2) * v for v in xs) + rng.randint(-1, 1))
+                continue
             mono = sp.Mul(*[v ** rng.randint(0, 3) for v in xs])
             terms.append({'poly': mono, 'sin': sp.sin(lin) * mono, 'exp': sp.exp(lin / 3), 'mix': sp.cos(lin) + mono}[kind] * rng.randint(-3, 3))
         return sum(terms) + 0 * xs[0]
@@ -207,28 +214,31 @@ def search(seed, tier):
                               got=g.reshape(-1).tolist(), want=want.reshape(-1).tolist()))
 
     for it in range(30 if tier == 'quick' else 300):
-        n = rng.randint(1, 4)
-        pts = [torch.tensor([[rng.uniform(-1.5, 1.5)] for _ in range(4)], requires_grad=True) for _ in range(n)]
-        u = rand_field(n)
-        U = tfun(u, n)(*pts)
-        for i, gi in enumerate(ops.grad(U, *pts)):
-            cmp(f'grad{n}[{i}]', gi, sp.diff(u, X[i]), n, pts, [u])
-        cmp(f'laplacian{n}', ops.laplacian(tfun(u, n)(*pts), *pts), sum(sp.diff(u, v, 2) for v in X[:n]), n, pts, [u])
-        us = [rand_field(n) for _ in range(n)]
-        cmp(f'div{n}', ops.div(*[tfun(f, n)(*pts) for f in us], *pts), sum(sp.diff(f, v) for f, v in zip(us, X)), n, pts, us)
-        if n == 3:
-            Us = [tfun(f, 3)(*pts) for f in us]
-            p, q, r = us
-            x, y, z = X[:3]
-            want = [sp.diff(r, y) - sp.diff(q, z), sp.diff(p, z) - sp.diff(r, x), sp.diff(q, x) - sp.diff(p, y)]
-            for i, ci in enumerate(ops.curl(*Us, *pts)):
-                cmp(f'curl[{i}]', ci, want[i], 3, pts, us)
-            for i, vi in enumerate(ops.vector_laplacian(*[tfun(f, 3)(*pts) for f in us], *pts)):
-                cmp(f'vector_laplacian[{i}]', vi, sum(sp.diff(us[i], v, 2) for v in X[:3]), 3, pts, us)
-            cc = ops.curl(*ops.curl(*[tfun(f, 3)(*pts) for f in us], *pts), *pts)
-            for i in range(3):
-                cw = sp.diff(sum(sp.diff(f, v) for f, v in zip(us, X)), X[i]) - sum(sp.diff(us[i], v, 2) for v in X[:3])
-                cmp(f'curl_curl[{i}]', cc[i], cw, 3, pts, us)
+        try:
+            n = rng.randint(1, 4)
+            pts = [torch.tensor([[rng.uniform(-1.5, 1.5)] for _ in range(4)], requires_grad=True) for _ in range(n)]
+            u = rand_field(n)
+            U = tfun(u, n)(*pts)
+            for i, gi in enumerate(ops.grad(U, *pts)):
+                cmp(f'grad{n}[{i}]', gi, sp.diff(u, X[i]), n, pts, [u])
+            cmp(f'laplacian{n}', ops.laplacian(tfun(u, n)(*pts), *pts), sum(sp.diff(u, v, 2) for v in X[:n]), n, pts, [u])
+            us = [rand_field(n) for _ in range(n)]
+            cmp(f'div{n}', ops.div(*[tfun(f, n)(*pts) for f in us], *pts), sum(sp.diff(f, v) for f, v in zip(us, X)), n, pts, us)
+            if n == 3:
+                Us = [tfun(f, 3)(*pts) for f in us]
+                p, q, r = us
+                x, y, z = X[:3]
+                want = [sp.diff(r, y) - sp.diff(q, z), sp.diff(p, z) - sp.diff(r, x), sp.diff(q, x) - sp.diff(p, y)]
+                for i, ci in enumerate(ops.curl(*Us, *pts)):
+                    cmp(f'curl[{i}]', ci, want[i], 3, pts, us)
+                for i, vi in enumerate(ops.vector_laplacian(*[tfun(f, 3)(*pts) for f in us], *pts)):
+                    cmp(f'vector_laplacian[{i}]', vi, sum(sp.diff(us[i], v, 2) for v in X[:3]), 3, pts, us)
+                cc = ops.curl(*ops.curl(*[tfun(f, 3)(*pts) for f in us], *pts), *pts)
+                for i in range(3):
+                    cw = sp.diff(sum(sp.diff(f, v) for f, v in zip(us, X)), X[i]) - sum(sp.diff(us[i], v, 2) for v in X[:3])
+                    cmp(f'curl_curl[{i}]', cc[i], cw, 3, pts, us)
+        except Exception as e:   # an operator that raises on an admissible smooth field is a failing input too
+            found.append(dict(error=f'{type(e).__name__}: {e}', dimension=n, fields=[str(f) for f in ([u] + list(locals().get('us', [])))]))
         if len(found) >= 3:
             break
     return found
